@@ -88,11 +88,10 @@ def parseInter (j : Json) : Except String Inter := do
 
 def parseMode (j : Json) : Except String (Option Mode) := do
   if j.isNull then return none
-  match (← str j) with
-  | "onehot" => pure (some .onehot)
-  | "onehot_tuple" => pure (some .onehotTuple)
-  | "string" => pure (some .string)
-  | m => throw s!"bad mode {m}"
+  let nm ← str j
+  match modeOfName nm with
+  | some m => pure (some m)
+  | none => throw s!"bad mode {nm}"
 
 def parseNoise (j : Json) : Except String (Option NoiseSpec) := do
   if j.isNull then return none
@@ -196,6 +195,22 @@ def noiseHyps (cfg : Cfg) : List Step → State → Nat → List Json
     | .ok S' => here ++ noiseHyps cfg rest S' (i + 1)
     | .error _ => here
 
+/-- for every Densify(action=True) step of the chain: do the explicit preconditions of `densify_sparse_aligned` hold for the stream that
+reaches it (in the model; the slot table is `densifyTable`, computed from the keys of that stream), and is the model's step aligned -/
+def densifyHyps (cfg : Cfg) : List Step → State → Nat → List Json
+  | [], _, _ => []
+  | st :: rest, S, i =>
+    let next := runStep cfg st S
+    let here := match st with
+      | .densify n m c true =>
+        [obj [("i", ofNat i),
+              ("hyp", Json.bool (cfg.fixRekey && densifySparseHypB (densifyTable m n c true S.stream) n S.stream)),
+              ("aligned", Json.bool (match next with | .ok S' => alignedStreamB S.stream S'.stream | .error _ => true))]]
+      | _ => []
+    match next with
+    | .ok S' => here ++ densifyHyps cfg rest S' (i + 1)
+    | .error _ => here
+
 /-- request `{"stream":[…], "chain":[…], "cfg":{…}}` → the model's final stream (the same
 observables the harness extracts from the real pipeline), `hyp` (the hypotheses of
 `chain_aligned` hold for this case) and `spec` (the model's output is aligned with its input). -/
@@ -208,11 +223,14 @@ def handle (req : Json) : Except String Json := do
                 ("flatten", Json.bool (flattenShapeB rows)),
                 ("denseOnly", ofList (fun a => Json.bool (denseOnly a)) rows),
                 ("wf", ofList (fun a => Json.bool (wfNoLazy a)) rows),
+                ("wfRow", ofList (fun a => Json.bool (wfRow a)) rows),
+                ("sparseRow", ofList (fun a => Json.bool (match a with | .dict d => sparseRowWf d | _ => false)) rows),
                 ("distinct", Json.bool (distinctB rows)),
                 ("pairwiseNe", Json.bool (pairwiseNeB rows)),
                 ("isNum", ofList (fun a => Json.bool (isNum a)) rows),
                 ("cycleSource", ofList (fun j => ofNat (cycleSource rows.length j)) (List.range rows.length)),
                 ("cycleRotatesAt", ofList (fun t => Json.bool (cycleRotatesAt 1 t)) (List.range 3)),
+                ("modes", ofList (fun m => Json.arr #[Json.str (modeName m), Json.str (valuesBranch m), Json.str (collBranch m)]) allModes),
                 ("consts", obj [("finalize", ofList Json.str finalizeReprModes), ("headers", ofList Json.str sparsifyHeaders),
                                 ("seed", ofNat densifySeed), ("shift", ofNat cycleShift)])]
   let stream ← (← arr (← field req "stream")).mapM parseInter
@@ -243,6 +261,7 @@ def handle (req : Json) : Except String Json := do
                               ("batch_obs", batchObsJson S)]),
                ("hyp", Json.bool hyp),
                ("noise_hyps", Json.arr (noiseHyps cfg chain S0 0).toArray),
+               ("densify_hyps", Json.arr (densifyHyps cfg chain S0 0).toArray),
                ("spec", Json.bool (alignedStreamB stream S.stream))])
 
 end Coba.C10.Driver
